@@ -5,6 +5,7 @@ CONSTANTS
   Conns <- TConn
   Ports <- TPort
   MaxSteps = 100000
+  MaxSubs = 3
 CONSTRAINT Progress
 POSTCONDITION Post
 CHECK_DEADLOCK FALSE
